@@ -93,6 +93,7 @@ def run(fb, rep, tier):
     flags(fb, rep, opt)
     types(fb, rep)
     objective(fb, rep)
+    unscaled_entry(fb, rep, opt)
 
 
 def flags(fb, rep, opt):
@@ -222,3 +223,25 @@ def objective(fb, rep):
                           'the objective value is %s%s: %s' % (rhs[:40], '' if neg else ' (not negated for minimisation)', 'the objective offset is never added' if not off else 'sign handling missing'))
     if k < 4:
         raise AnalysisBroken('only %d computations of the rational objective value found' % k)
+
+
+def unscaled_entry(fb, rep, opt):
+    """R03.5: the exact solver treats the real LP as the (rounded) user LP.  After a floating-point solve with persistent scaling the real
+    LP is scaled (_isRealLPScaled): on every path from the entry of _optimizeRational to the first refinement / floating-point solve call
+    the scaling must have been undone (unscaleLPandReloadBasis) when that flag is set."""
+    rep.rule('R03.5', 'with a persistently scaled real LP the exact solver undoes the scaling before its first refinement / floating-point solve step', floor=3)
+    scaled = Assume(atoms={'_isRealLPScaled': True})
+    g = Graph(opt, scaled)
+    undo = lambda n: n.k == 'CXXMemberCallExpr' and n.short == 'unscaleLPandReloadBasis'
+    steps = [n for n in opt.nodes if n.k == 'CXXMemberCallExpr' and n.obj() is not None and n.obj().k == 'CXXThisExpr'
+             and n.short in ('_performOptIRWrapper', '_performOptIRStable', '_performFeasIRStable', '_performUnboundedIRStable', '_solveRealForRational', '_storeLPReal', '_lift', '_transformEquality')]
+    if len(steps) < 3:
+        raise AnalysisBroken('R03.5: the refinement steps of _optimizeRational were not found')
+    reach = g.reach(g.entry)
+    for n in steps:
+        b = g.block_of(n)
+        if b not in reach:
+            continue
+        ok, path = g.must_pass(undo, to=b)
+        rep.check(ok, 'R03.5', '_optimizeRational|%s@%d' % (n.short, n.l), '%s:%d' % (opt.file, n.l), 'unscaleLPandReloadBasis() lies on every path to this step when _isRealLPScaled',
+                  '%s is reached with _isRealLPScaled still true (no unscaleLPandReloadBasis on the path, lines %s): the exact solver reloads and shifts a scaled LP as if it were the user\'s' % (n.short, g.path_lines(path)[:8] if path else ''))
